@@ -375,7 +375,9 @@ class Buffer:
         >>> c.position
         4
         """
-        c = self.__init(self.__empty(), self.peek().position)
+        start = self.peek()
+        c = self.__init(self.__empty(),
+                        start.position if start is not None else self.__i)
         while self.hasNext() and not condition(self.peek() if peek else self):
             c += self.forward(1)
         return c
